@@ -313,7 +313,7 @@ class Paragraph(BlockToken):
     Paragraph token. (["some\\n", "continuous\\n", "lines\\n"])
     This is a leaf block token. Its children are inline (span) tokens.
     """
-    setext_pattern = re.compile(r' {0,3}(=+|-+) *$')
+    setext_pattern = re.compile(r' {0,3}(=+|-+)[ \t]*$')
     parse_setext = True  # can be disabled by Quote
 
     def __new__(cls, lines):
